@@ -834,8 +834,7 @@ def run_common(chk, prop, clauses, focus_mix, replay=None, extra=None):
     pr = chk.prove(extra_targets=("Base_Bytes.vo", "C06_Model.vo"))
     gen_problems = [p for p in pr["problems"] if p.startswith(("gen_C06.py", "gen_C07.py")) or "Timestamp_kMicroSecondsPerSecond" in p]
     try:
-        with vlib.Lock("coq"):      # no other check may be rebuilding Gen_*.vo / Base_Bytes.vo while coqc extracts
-            model = vlib.build_model("C06")
+        model = vlib.build_model("C06")     # (vlib retries under the Coq lock when a required .vo is missing)
     except Exception as e:  # the model must run even when a proof breaks; if it cannot be built, say so
         model = None
         chk.notes.append("model build failed: %s" % str(e)[-400:])
